@@ -29,7 +29,7 @@ OutOf(jo) == [i \in 1..Len(jo) |->
 StepOf(j) == [op |-> j.op, ev |-> j.ev, ev2 |-> IF "ev2" \in DOMAIN j THEN j.ev2 ELSE "", gv |-> j.gv]
 
 Unpack(s) == [config |-> s.config, hist |-> s.hist, status |-> s.status, ctx |-> s.ctx,
-              queue |-> <<>>, out |-> <<>>, err |-> NoErr, rd |-> 0, output |-> s.output]
+              queue |-> <<>>, out |-> <<>>, err |-> NoErr, rd |-> 0, output |-> s.output, gv |-> <<>>]
 
 ImplStep(pre, step, eng) ==
   LET e0 == IF eng = "pure" THEN "pure" ELSE eng
@@ -75,7 +75,9 @@ Verdict ==
                 C02 |-> On("C02", C02(pre, step, post, out)),
                 C03 |-> On("C03", C03(pre, step, post, out)),
                 C10 |-> On("C10", C10(pre, step, post, out, eng)),
-                C11 |-> On("C11", C11(pre, step, post, out, eng))]]
+                C11 |-> On("C11", C11(pre, step, post, out, eng)),
+                C06 |-> On("C06", C06(pre, step, post, out)),
+                C20 |-> On("C20", C20(pre, step, post, out))]]
 
 Emit == PrintT(ToJson(Verdict))
 =============================================================================
